@@ -208,6 +208,8 @@ class Engine:
             return False
         if self.spec_mode:
             raise Unsupported("control-flow on a symbolic value inside a specification clause")
+        if getattr(self, "pure_mode", 0):
+            raise Unsupported("control-flow on a symbolic value inside the element of a symbolic comprehension")
         if self.pos < len(self.trace):
             d = self.trace[self.pos]
             self.pos += 1
